@@ -231,8 +231,8 @@ def widen(ctx):
     from .rules import widen as wd
     c = _sub()
     n = wd.check(c, ["src/controls.c"])
-    ctx.control("R24.narrow-guard finds the control guards", n == 4, str(n))
-    _expect(ctx, "R24.narrow-guard", c, ["narrow_guard_bad", "narrow_guard_local_bad"], ["narrow_guard_good"])
+    ctx.control("R24.narrow-guard finds the control guards", n == 5, str(n))
+    _expect(ctx, "R24.narrow-guard", c, ["narrow_guard_bad", "narrow_guard_local_bad", "narrow_guard_local32_bad"], ["narrow_guard_good"])
     c2 = _sub()
     n2 = wd.check_signext(c2, ["src/controls.c"])
     ctx.control("R24.sign-extension finds the control assemblies", n2 == 2, str(n2))
@@ -256,7 +256,16 @@ def hidden(ctx):
     _expect(ctx, "R26.hidden-state", c, ["hidden_bad"], ["hidden_good"])
 
 
-ALL = {"hidden": hidden, "region_args": region_args, "widen": widen, "progress": progress, "lazyinit": lazyinit, "lanes": lanes, "atomic": atomic, "feasible": feasible, "endian": endian, "units": units, "alloc": alloc, "status": status, "ownership": ownership, "cursor": cursor, "arrays": arrays,
+def stalefield(ctx):
+    from .rules import stalefield as sf
+    P = program()
+    c = _sub()
+    n = sf.check(c, [P.fn("stale_bad"), P.fn("stale_good")])
+    ctx.control("R27.stale-member finds the control frees", n == 4, str(n))
+    _expect(ctx, "R27.stale-member", c, ["stale_bad"], ["stale_good"])
+
+
+ALL = {"stalefield": stalefield, "hidden": hidden, "region_args": region_args, "widen": widen, "progress": progress, "lazyinit": lazyinit, "lanes": lanes, "atomic": atomic, "feasible": feasible, "endian": endian, "units": units, "alloc": alloc, "status": status, "ownership": ownership, "cursor": cursor, "arrays": arrays,
        "recursion": recursion, "narrowing": narrowing, "skeleton": skeleton, "must_pass": must_pass}
 
 
